@@ -72,39 +72,39 @@ FLOORS = {
         "leaf_rows_checked": 5000000,
         "marginal_checks": 20000,
         "diag_checks": 20000,
-        "floor_ceil_checks": 15000,
+        "floor_ceil_checks": 30000,
         "expected_copies_systematic": 150,
-        "categorical_scripted_runs": 3000,
+        "categorical_scripted_runs": 2500,
         "categorical_enumerations": 10,
         "categorical_site_checks": 250,
-        "uniform_site_events": 15000,
+        "uniform_site_events": 30000,
         "categorical_site_events": 3000,
         "eager_runs": 500,
         "binomial_tests": 400,
         "real_sampler_resamples": 50000,
     },
     "thorough": {
-        "systematic_scripted_runs": 900000,
-        "systematic_direct_runs": 900000,
+        "systematic_scripted_runs": 700000,
+        "systematic_direct_runs": 700000,
         "offsets_near_1": 12000,
         "offsets_near_breakpoint": 30000,
         "copy_checks": 1000000,
         "leaf_rows_checked": 300000000,
         "marginal_checks": 1000000,
         "diag_checks": 1000000,
-        "floor_ceil_checks": 900000,
+        "floor_ceil_checks": 1400000,
         "expected_copies_systematic": 2000,
         "categorical_scripted_runs": 40000,
         "categorical_enumerations": 100,
         "categorical_site_checks": 2500,
-        "uniform_site_events": 900000,
+        "uniform_site_events": 1400000,
         "categorical_site_events": 40000,
         "eager_runs": 5000,
         "binomial_tests": 3000,
         "real_sampler_resamples": 1500000,
     },
 }
-TIMEOUT_S = {"quick": 900, "thorough": 3600}
+TIMEOUT_S = {"quick": 1200, "thorough": 7200}
 
 N_MODELS = 4
 # family-wise budget of the statistical monitors: alpha per test = 1e-9 / MAX_TESTS
@@ -122,7 +122,7 @@ def plan(tier, seed):
         models = [i % N_MODELS for i in range(n_cases)]
         n_stat, reps = 24, 2048
     else:
-        n_cases, per_case, n_grid, sides, n_scripts = 256, 12, 300, 24, 12
+        n_cases, per_case, n_grid, sides, n_scripts = 256, 12, 240, 24, 12
         ns = [n for n in range(1, 65) for _ in range(N_MODELS)]
         models = [i % N_MODELS for i in range(n_cases)]
         n_stat, reps = 96, 8192
